@@ -585,9 +585,9 @@ static int op_3_reg_option(
 
     if (operands[3].attribute == OPTION_LSL)
     {
+      // Not an error yet: the shifted register form takes bigger shifts.
       if (operands[3].value < 0 || operands[3].value > 7)
       {
-        print_error_range(asm_context, "Shift", 0, 7);
         return -2;
       }
 
